@@ -33,6 +33,11 @@ def akai_base(seed: int):
 
 def roland_base(seed: int):
     case = naming.roland_files_case(ROLAND_NAMES, [300, 301, 302, 303])
+    # one loop mode per sample (alternate, reverse one-shot, forward one-shot, reverse loop) and distinct loop points: the
+    # mode-specific window arithmetic meets the damaged points
+    for s, mode in zip(case["img"]["samples"], (4, 5, 3, 6)):
+        end = s["pts"][4]
+        s["mode"], s["pts"] = mode, [10, 20, end - 30, 40, end]
     image = rw.build_image(case, seed)
     recs = [(A["sample_dir"] + 32 * i, A["sample_param"] + 0x30 * i) for i in range(len(ROLAND_NAMES))]
     return case, image, recs
